@@ -11,8 +11,8 @@ import (
 
 	"github.com/centrifuge/go-substrate-rpc-client/v4/signature"
 	"github.com/creasty/defaults"
-	"github.com/mitchellh/mapstructure"
 
+	"github.com/ChainSafe/sygma-relayer/config"
 	"github.com/ChainSafe/sygma-relayer/config/chain"
 )
 
@@ -80,7 +80,7 @@ func NewSubstrateConfig(chainConfig map[string]interface{}) (*SubstrateConfig, e
 		return nil, err
 	}
 
-	err = mapstructure.Decode(chainConfig, &c)
+	err = config.DecodeExact(chainConfig, &c)
 	if err != nil {
 		return nil, err
 	}
